@@ -1966,10 +1966,21 @@ impl<T: PPGEvaluatorStrategy> PPGEvaluator<T> {
                             "Should have had history for it, if it was validated?!".to_string(),
                         )
                     })?;
-                let my_historical_input = history.get(&format!(
-                    "{}!!!{}",
-                    &jobs[upstream_idx].job_id, &jobs[node_idx].job_id
-                ));
+                let my_historical_input = history
+                    .get(&format!(
+                        "{}!!!{}",
+                        &jobs[upstream_idx].job_id, &jobs[node_idx].job_id
+                    ))
+                    .or_else(|| {
+                        // just like in edge_invalidated: the upstream may be a
+                        // multi output job that was renamed since we last ran.
+                        Self::try_finding_renamed_multi_output_job(
+                            &jobs[upstream_idx].job_id,
+                            &jobs[node_idx].job_id,
+                            history,
+                        )
+                        .and_then(|x| history.get(&format!("{}!!!{}", x, &jobs[node_idx].job_id)))
+                    });
                 match my_historical_input {
                     None => {
                         //no history, so certainly invalidated
